@@ -229,7 +229,9 @@ def render(items, T: Text, directives="auto", data_first=True, decorate=None):
         text = decorate(text)
         data = decorate(data)
     has_data = bool(data)
-    if directives == "none" or (directives == "auto" and not has_data):
+    if directives == "force":
+        pass
+    elif directives == "none" or (directives == "auto" and not has_data):
         assert not has_data
         return "\n".join(text)
     if data_first:
